@@ -164,7 +164,15 @@ def mutate(draw, text, kinds=None):
             # only in front of unindented lines: a form feed followed by indentation is ignored by CPython's indentation
             # count but counted as a column by parso's tokenizer, which then nests the line differently (a quirk of the
             # dependency, like the continuation case below; not a subject of these properties)
-            cand = [j for j, l_ in enumerate(lines) if not l_[:1].isspace()]
+            # ... and only where the previous non-blank line is unindented as well: after an indented block parso takes
+            # the form feed's column for a dedent to column 1 and keeps the line inside the block ('class A:\n\tpass\n\fx = 1'
+            # is one Class node for parso), CPython dedents to the module
+            def prev_flat(j):
+                for q in range(j - 1, -1, -1):
+                    if lines[q].strip():
+                        return not lines[q][:1].isspace() and not lines[q].rstrip().endswith((":", "\\", "(", "[", "{", ","))
+                return True
+            cand = [j for j, l_ in enumerate(lines) if not l_[:1].isspace() and prev_flat(j)]
             i = draw(st.sampled_from(cand)) if cand else 0
             lines[i] = "\x0c" + lines[i]
             text = "\n".join(lines)
@@ -181,7 +189,10 @@ def mutate(draw, text, kinds=None):
             ids = sorted(set(re.findall(r"\b[a-z_][a-z0-9_]{2,}\b", text)) - set(keyword.kwlist))
             if ids:
                 old = draw(st.sampled_from(ids))
-                new = draw(st.sampled_from(["é" + old, old + "ß", "变量", "𝒳" + old, "ﬁ" + old]))
+                # incl. characters whose case mappings change the length of the string ('ß'.upper() == 'SS',
+                # 'ß'.casefold() == 'ss', 'İ'.lower() is two code points), at the start, in the middle and at the end
+                new = draw(st.sampled_from(["é" + old, old + "ß", "变量", "𝒳" + old, "ﬁ" + old, old[:2] + "ß" + old[2:],
+                                            "ß" + old, old[:1] + "İ" + old[1:], "Straße_" + old, old + "_größe"]))
                 text = re.sub(r"\b%s\b" % re.escape(old), new, text)
         elif m == "bom":
             text = "﻿" + text
